@@ -20,7 +20,10 @@ RULE = (
     "fresh public to_json() dump of the EV), 1e-9 relative; recorded rate exactly 0 wherever the "
     "reference model says no EV is connected; sim.peak = max(0, max_t sum_s rates) (1e-9); "
     "total_energy_delivered = sum_t aggregate_power[t]*period/60 and aggregate_current = column "
-    "sums. Non-trivial = some session received energy in >= 2 periods and a non-zero pilot was "
+    "sums. Sub-check ledger_stochastic repeats the ledger on StochasticNetwork histories (run-time "
+    "station assignment, waiting queue, early departure of satisfied EVs; generator of C19), the "
+    "connection intervals being read from the occupancy recorded where the pilots are applied. "
+    "Non-trivial = some session received energy in >= 2 periods and a non-zero pilot was "
     "applied to a vacant station."
 )
 ASSUMPTIONS = [
@@ -92,6 +95,52 @@ def prop(spec, rec):
     rec.case(spec, labels, multi and vacant_pilot)
 
 
+def prop_stochastic(spec, rec):
+    """The ledger on a StochasticNetwork (stations assigned at run time, early departure of
+    satisfied EVs): who is connected where is read from the occupancy recorded when each
+    period's pilots are applied."""
+    from . import c19
+
+    picker = c19.Picker(spec["choices"])
+    net, sim, evs = c19.build(spec)
+    c19.run(sim, picker)
+    ids = spec["stations"]
+    R = np.array(sim.charging_rates, dtype=float)
+    period = spec["period"]
+    got = {sid: 0.0 for sid in evs}
+    terms = {sid: [] for sid in evs}
+    moved = False
+    for t in range(sim.iteration):
+        require(t in net.before, "no_charging_update_in_period", lambda: "period %d: pilots were never applied" % t)
+        occ = net.before[t][0]
+        for i, stn in enumerate(ids):
+            who = occ[stn]
+            if who is None:
+                require(R[i, t] == 0, "rate_zero_when_vacant", lambda: "station %s period %d vacant but recorded rate %r" % (stn, t, R[i, t]))
+            else:
+                terms[who].append(float(R[i, t]) * c19.V / 1000.0 * (period / 60.0))
+        if t in net.after and net.after[t][0] != occ:
+            moved = True
+    labels = {"stochastic", "early_on" if spec["early"] else "early_off"}
+    charged = 0
+    for sid, ev in evs.items():
+        ledger = math.fsum(terms[sid])
+        require(close(ev.energy_delivered, ledger), "ev_energy_equals_recorded_rates", lambda: "session %s: EV reports %r kWh, the rates recorded while it was connected integrate to %r kWh" % (sid, ev.energy_delivered, ledger))
+        init, cur = battery_state(ev)
+        require(close(cur - init, ev.energy_delivered, ab=1e-8), "battery_gain_equals_ev_energy", lambda: "session %s: battery gained %r kWh, EV reports %r kWh" % (sid, cur - init, ev.energy_delivered))
+        charged += ev.energy_delivered > 0
+    agg = R.sum(axis=0)
+    require(close(sim.peak, max(0.0, float(agg.max())) if agg.size else 0.0, ab=1e-9), "peak_is_max_aggregate_current", lambda: "peak %r, max aggregate %r" % (sim.peak, agg.max()))
+    total = acnsim.total_energy_delivered(sim)
+    integral = float(np.sum(acnsim.aggregate_power(sim))) * (period / 60.0)
+    require(close(total, integral, ab=1e-9), "total_energy_equals_power_integral", lambda: "total_energy_delivered %r kWh, integral of aggregate power %r kWh" % (total, integral))
+    if moved:
+        labels.add("early_departure_swap")
+    if net.swaps:
+        labels.add("queue_admission")
+    rec.case(spec, labels, bool(net.swaps) and charged >= 2)
+
+
 def subchecks(tier):
     return [
         Given(
@@ -102,9 +151,18 @@ def subchecks(tier):
             thorough=30000,
             floors={"multi_period_charging": 0.271, "pilot_on_vacant_station": 0.2, "noisy_battery_charged": 0.1, "battery_filled": 0.077, "mixed_voltage": 0.3, "fractional_period": 0.05},
             min_nontrivial=20,
-        )
+        ),
+        Given("ledger_stochastic", stochastic_cases(), prop_stochastic, quick=200, thorough=15000, floors={"early_departure_swap": 0.1, "queue_admission": 0.3}),
     ]
 
 
+def stochastic_cases():
+    from . import c19
+
+    return c19.cases()
+
+
 def replay(subcheck, spec, rec):
+    if subcheck == "ledger_stochastic":
+        return prop_stochastic(spec, rec)
     return prop(spec, rec)
